@@ -21,6 +21,23 @@ from concurrent.futures import ThreadPoolExecutor
 V = os.path.dirname(os.path.dirname(os.path.abspath(__file__)))
 
 
+SNAP = [None]
+
+
+def snapshot(root):
+    """the checks run from a copy of /verif's machinery taken at start, so that editing /verif meanwhile
+    does not disturb a run"""
+    snap = os.path.join(root, "verif_snapshot")
+    shutil.rmtree(snap, ignore_errors=True)
+    os.makedirs(snap)
+    for d in ("contracts", "tools"):
+        shutil.copytree(os.path.join(V, d), os.path.join(snap, d), ignore=shutil.ignore_patterns("__pycache__"))
+    shutil.copytree(os.path.join(V, "replay"), os.path.join(snap, "replay"), ignore=shutil.ignore_patterns("target"))
+    for f in ("check", "known_findings.jsonl", "MANIFEST.json"):
+        shutil.copy(os.path.join(V, f), os.path.join(snap, f))
+    SNAP[0] = snap
+
+
 def run_seed(name, root):
     sd = os.path.join(V, "seeded", name)
     work = os.path.join(root, "sr_" + name)
@@ -40,10 +57,10 @@ def run_seed(name, root):
             return {"seed": name, "error": "patch does not apply: " + ap.stderr[-300:]}
         env = dict(os.environ, VERIF_REPO=repo, VERIF_CACHE=os.path.join(work, "cache"),
                    VERIF_EVIDENCE=os.path.join(work, "evidence"), VERIF_REPLAYS=os.path.join(work, "replays"))
-        props = [c["property_id"] for c in json.load(open(os.path.join(V, "MANIFEST.json")))["checks"]]
+        props = [c["property_id"] for c in json.load(open(os.path.join(SNAP[0], "MANIFEST.json")))["checks"]]
         res = {"seed": name, "violations": {}, "undecided": {}, "ok": []}
         for p in props:
-            r = subprocess.run([os.path.join(V, "check"), p, "quick"], env=env, capture_output=True, text=True)
+            r = subprocess.run([os.path.join(SNAP[0], "check"), p, "quick"], env=env, capture_output=True, text=True)
             lines = [l for l in r.stdout.split("\n") if l.startswith(("VIOLATION", "UNDECIDED"))]
             if r.returncode == 1:
                 res["violations"][p] = [re.sub(r"replay=\S+ ", "", l)[:300] for l in lines if l.startswith("VIOLATION")]
@@ -66,6 +83,7 @@ def main():
     a = ap.parse_args()
     seeds = a.seeds or sorted(os.listdir(os.path.join(V, "seeded")))
     os.makedirs(a.root, exist_ok=True)
+    snapshot(a.root)
     with ThreadPoolExecutor(max_workers=a.j) as ex:
         for res in ex.map(lambda n: run_seed(n, a.root), seeds):
             name = res["seed"]
@@ -81,6 +99,7 @@ def main():
             print("SEED %s violations=%s undecided=%d %s %s" % (name, sorted(res["violations"]), len(res["undecided"]),
                                                                obl[:4], reason))
             sys.stdout.flush()
+    shutil.rmtree(SNAP[0], ignore_errors=True)
     try:
         os.rmdir(a.root)
     except OSError:
